@@ -26,6 +26,45 @@ def gen_call(t, name):
     return isinstance(t, tuple) and t[0] == "method" and t[1] == RNG and t[2] == name
 
 
+def regions(t):
+    """(value below the diagonal, on it, above it) of a (p, p) matrix term built from constants, or None."""
+    t = strip_cast(t)
+    if not isinstance(t, tuple):
+        return None
+    if t[0] == "const" and isinstance(t[1], (int, float)) and not isinstance(t[1], bool):
+        return (t[1],) * 3
+    if t[0] == "ext" and t[1] in ("numpy.ones", "numpy.zeros", "numpy.eye", "numpy.identity"):
+        kw = dict(t[3])
+        if set(kw) - {"dtype"}:
+            return None
+        if t[1] in ("numpy.ones", "numpy.zeros"):
+            if t[2] != (PP,):
+                return None
+            c = 1 if t[1] == "numpy.ones" else 0
+            return (c, c, c)
+        return (0, 1, 0) if t[2] in ((Pp,), (Pp, Pp)) else None
+    if t[0] == "ext" and t[1] in ("numpy.triu", "numpy.tril") and t[2]:
+        b2, _ = api.bind_slots(api.SLOTS["numpy.triu"], list(t[2]), dict(t[3]))
+        kk = b2.get("k")
+        k = 0 if kk is None else (kk[1] if is_const(kk) and isinstance(kk[1], int) else None)
+        r = regions(b2["m"])
+        if r is None or k not in (-1, 0, 1):
+            return None
+        if t[1] == "numpy.triu":
+            return (0, r[1], r[2]) if k == 0 else None      # k = +-1 cut inside a region: only k = 0 is region-exact
+        return (r[0], r[1], 0) if k == 0 else None
+    if t[0] == "binop" and t[1] in ("+", "-", "*"):
+        a, b = regions(t[2]), regions(t[3])
+        if a is None or b is None:
+            return None
+        op = {"+": lambda x, y: x + y, "-": lambda x, y: x - y, "*": lambda x, y: x * y}[t[1]]
+        return tuple(op(x, y) for x, y in zip(a, b))
+    if t[0] == "attr" and t[2] == "T":
+        r = regions(t[1])
+        return None if r is None else (r[2], r[1], r[0])
+    return None
+
+
 def strip_cast(t):
     while isinstance(t, tuple) and t[0] == "method" and t[2] == "astype":
         t = t[1]
@@ -164,6 +203,19 @@ def analyse(rep, prog, name, full):
             rep.unk("TRIU.strict", fwhere(f, li_["node"]), "the edge mask is built by a loop that is not read as the strict upper triangle")
         return
     if not (mask[0] == "ext" and mask[1] == "numpy.triu" and mask[2]):
+        reg = regions(mask)
+        if reg is not None:
+            # a mask of constants per region (below the diagonal, on it, above it)
+            if reg[0] != 0 or reg[1] != 0:
+                rep.bad("TRIU.strict", fwhere(f), "edge mask %s has non-zero entries %s: not a strict upper triangle" % (
+                    fmt(mask)[:80], " and ".join(w for w, v in zip(("below the diagonal", "on the diagonal"), reg) if v != 0)))
+            else:
+                rep.ok("TRIU.strict", fwhere(f), "edge mask %s is zero on and below the diagonal" % fmt(mask)[:80])
+                if full:
+                    rep.check("MASK.full", reg[2] == 1, fwhere(f), "every entry above the diagonal is 1", "dag_full's mask is %s above the diagonal" % reg[2])
+                else:
+                    rep.bad("BERNOULLI.idiom", fwhere(f), "edge indicator is a constant mask, not a Bernoulli threshold")
+            return
         if mask[0] == "ext" and mask[1] in ("numpy.tril", "numpy.ones", "numpy.eye", "numpy.ones_like"):
             rep.bad("TRIU.strict", fwhere(f), "edge mask is not np.triu(...): %s" % fmt(mask)[:80])
         else:
